@@ -116,6 +116,19 @@ func solve(w *World, o *Obl, tier string, keepQuery bool) *Result {
 	t0 := time.Now()
 	defer func() { r.Seconds = time.Since(t0).Seconds() }()
 	ctx := context.Background()
+	if o.Kind == "cover" {
+		// only an unsat answer matters (vacuity); a model is not needed
+		ans, out, _ := runSolver(ctx, "z3-new", 2, q, false)
+		switch ans {
+		case "unsat":
+			r.Status, r.Solver = "discharged", "z3-new"
+		case "sat":
+			r.Status, r.Solver = "refuted", "z3-new"
+		default:
+			r.Status, r.Output = "unknown", out
+		}
+		return r
+	}
 	// stage 1: z3-new alone, short
 	ans, out, _ := runSolver(ctx, "z3-new", first, q, true)
 	if ans == "unsat" {
